@@ -778,7 +778,7 @@ def run(tier, seed, replay=None):
     res = Result(PID, tier, seed)
     orch.gen_mod.main()
     mkoblig.main()
-    lean_ok, lean_log, dt = orch.lake_build(["SafeC.Props.C20", "safec_model"])
+    lean_ok, lean_log, dt = orch.lake_build(orch.prop_targets("C20"))
     res.extra["lean_build_s"] = round(dt, 1)
     drv_ok = lean_ok or orch.lake_build(["safec_model"])[0]
     obs = orch.obligations(PID)
